@@ -188,7 +188,7 @@ def main(argv=None):
     cases.sort(key=lambda c: -c.get("weight", 1))
     results = _run_all(pid, cases, tier, a.jobs)
     # ---- merge
-    tot = dict(paths=0, aborted=0, obligations=0, nontrivial=0, discharged=0, queries=0, unsat=0, sat=0, n_unknown=0,
+    tot = dict(paths=0, aborted=0, obligations=0, nontrivial=0, discharged=0, by_rewriter=0, queries=0, unsat=0, sat=0, n_unknown=0,
                branch_unknown=0, solver_s=0.0)
     by_name, funcs, samples, cexs, unknowns, bad, truncated = {}, set(), [], [], [], [], []
     per_case = []
@@ -268,10 +268,10 @@ def main(argv=None):
             evaluations=tot["paths"], distinct_nontrivial=tot["nontrivial"],
             rule=("evaluations = feasible symbolic paths of the real torchjd code executed end-to-end on the environment "
                   "model (each path stands for ALL real values of the symbolic inputs satisfying its path condition); "
-                  "distinct_nontrivial = proof obligations on those paths that did not simplify to true syntactically and "
-                  "were discharged by an SMT query (every path/obligation is distinct: the DFS never revisits a decision prefix)"),
+                  "distinct_nontrivial = proof obligations on those paths that mention solver variables and were decided by z3 "
+                  "(check-sat query, or z3's simplifier when the identity already holds in polynomial normal form; the split is reported) (every path/obligation is distinct: the DFS never revisits a decision prefix)"),
             samples=samples or [dict(note="no non-syntactic obligation")],
-            obligations=tot["obligations"], discharged=tot["discharged"],
+            obligations=tot["obligations"], discharged=tot["discharged"], discharged_by_z3_rewriter_alone=tot["by_rewriter"],
             obligations_by_name={k: dict(emitted=v[0], discharged=v[1]) for k, v in sorted(by_name.items())},
             paths_infeasible=tot["aborted"], solver_queries=tot["queries"],
             solver_results=dict(unsat=tot["unsat"], sat=tot["sat"], unknown=tot["n_unknown"], branch_unknown_explored_as_feasible=tot["branch_unknown"]),
